@@ -121,26 +121,31 @@ def _global_cost_loop(rc: RuleCtx):
     i = ev.symbol(ivar)
     benv = dict(env)
     benv[ivar] = i
-    left = ev.symbol("left")
     carried = [n for n in stored_names(ast.Module(body=loop.body, type_ignores=[])) if n in env]
-    if not (isinstance(env.get("left"), Rat) and env["left"].equals(_at(red, C(0)))):
-        res.violation("U1", mod, fi.name, fi.node, "the first segment does not start at reduced[0]", str(env.get("left")), "reduced[0]", construct="left init")
+    # role: the running left end = the carried variable initialised with reduced[0]
+    lnames = [n for n in carried if isinstance(env.get(n), Rat) and env[n].equals(_at(red, C(0)))]
+    if len(lnames) != 1:
+        res.violation("U1", mod, fi.name, fi.node, "the first segment does not start at reduced[0]", str({n: str(env.get(n)) for n in carried}), "left = reduced[0]",
+                      construct="left init")
+        return
+    lname = lnames[0]
     for nme in carried:
         benv[nme] = ev.symbol(nme)
+    left = benv[lname]
     try:
         out = ev.eval_loop_body(fi, loop, benv)
     except Unsupported as e:
         raise AnalysisError(f"{fi.qualname}: loop body not modelled: {e}")
     right = _at(red, i)
-    if isinstance(out.env.get("left"), Rat) and out.env["left"].equals(right):
+    if isinstance(out.env.get(lname), Rat) and out.env[lname].equals(right):
         res.ok("U1", f"{fi.qualname}:chain", "consecutive segments (left, right) = (reduced[i-1], reduced[i])")
     else:
-        res.violation("U1", mod, fi.name, loop, "segments are not the consecutive breakpoint pairs", str(out.env.get("left")), "left <- reduced[i]",
+        res.violation("U1", mod, fi.name, loop, "segments are not the consecutive breakpoint pairs", str(out.env.get(lname)), "left <- reduced[i]",
                       construct="segment chain")
     key = Vec([left, right])
     stores = [e for e in out.events if e.kind == "store" and e.target == "cache"]
     reads_ok = True
-    allowed = {"points.x", "points.y", "left", "cost", "reduced", ivar, "None", "eps"}
+    allowed = {"points.x", "points.y", lname, "cost", "reduced", ivar, "None", "eps"}
     n_store = 0
     zero_guards = []
     value_cases = []
@@ -462,10 +467,15 @@ def _global_rmse(rc: RuleCtx):
     i = ev.symbol(ivar)
     benv = dict(env)
     benv[ivar] = i
-    left = ev.symbol("left")
-    for nme in stored_names(ast.Module(body=loop.body, type_ignores=[])):
-        if nme in env:
-            benv[nme] = ev.symbol(nme)
+    carried = [nme for nme in stored_names(ast.Module(body=loop.body, type_ignores=[])) if nme in env]
+    lnames = [n for n in carried if isinstance(env.get(n), Rat) and env[n].equals(_at(red, C(0)))]
+    if len(lnames) != 1:
+        res.violation("U6", mod, fi.name, fi.node, "the first segment of the global RMSE does not start at reduced[0]", str(carried), "left = reduced[0]", construct="rmse left init")
+        return
+    lname = lnames[0]
+    for nme in carried:
+        benv[nme] = ev.symbol(nme)
+    left = benv[lname]
     out = ev.eval_loop_body(fi, loop, benv)
     right = _at(red, i)
     key = Vec([left, right])
@@ -483,15 +493,18 @@ def _global_rmse(rc: RuleCtx):
             for g, x in cases_of(v):
                 if isinstance(x, Rat) and x.equals(want):
                     good = True
-    if good and isinstance(out.env.get("left"), Rat) and out.env["left"].equals(right):
+    if good and isinstance(out.env.get(lname), Rat) and out.env[lname].equals(right):
         res.ok("U6", f"{fi.qualname}:segments", "cache[(left,right)] == SSE of points[left:right+1] against its endpoint line; consecutive segments")
     else:
         res.violation("U6", mod, fi.name, loop, "the cached segment error of the global RMSE is not the SSE against the segment's endpoint line",
                       str([_short(e.args[1]) for e in stores]), _short(want), construct="rmse segment sse")
     fr2 = Frame(ev, fi, 0)
+    zs = [st for st in pre if isinstance(st, ast.Assign) and isinstance(st.value, ast.Call) and ast.unparse(st.value.func) in ("np.zeros", "numpy.zeros")
+          and isinstance(st.targets[0], ast.Name)]
+    segname = zs[0].targets[0].id if len(zs) == 1 else "segment_errors"
     seg = ev.symbol("segment_errors", True)
     ev.len_map["segment_errors"] = sym("S")
-    penv = {"points": pts, "segment_errors": seg}
+    penv = {"points": pts, segname: seg}
     fr2.block(post, penv, TRUE)
     val = mk_pw(fr2.returns)
     want = anf.f_sqrt(anf.f_sum(seg, sym("S")) / sym("n"))
@@ -523,14 +536,16 @@ def _mip(rc: RuleCtx):
     benv[ivar] = i
     out = ev.eval_loop_body(fi, loop, benv)
     sts = [e for e in out.events if e.kind == "store"]
-    cache_v = env.get("cache")
+    dicts = [v for v in env.values() if isinstance(v, Obj) and v.tag == "dict"]
+    cache_v = dicts[0] if dicts else None
 
     def rmse_call(red_arg: Rat):
         names = ("points", "reduced", "cache")
         args = [ev.to_rat(pts), red_arg, ev.to_rat(cache_v) if cache_v is not None else sym("cache")]
         return anf.opaque("call:evaluation.compute_global_rmse", *args, array=any(a.is_array() for a in args), extra=names)
-    fin = env.get("cost_fin")
     want_fin = rmse_call(red)
+    fins = [v for v in env.values() if isinstance(v, Rat) and v.equals(want_fin)]
+    fin = fins[0] if fins else None
     dele = anf.opaque("np.delete", red, i, array=True)
     want_ref = rmse_call(dele)
     good = ok and isinstance(fin, Rat) and fin.equals(want_fin)
@@ -547,8 +562,9 @@ def _mip(rc: RuleCtx):
                       "ip[i-1] = compute_global_rmse(points, np.delete(reduced, i)) - compute_global_rmse(points, reduced), i in 1..len(reduced)-2",
                       construct="mip improvement")
     fr2 = Frame(ev, fi, 0)
+    ipname = sts[0].target if sts else "ip"
     ipv = ev.symbol("ip", True)
-    penv = {"ip": ipv}
+    penv = {ipname: ipv}
     fr2.block(post, penv, TRUE)
     val = mk_pw(fr2.returns)
     med = anf.opaque("median", ipv, array=False)
